@@ -17,15 +17,18 @@ sys.path.insert(0, os.path.join(HERE, "..", "lib"))
 import verif  # noqa: E402
 
 KINDS = ["set", "mset", "map", "mmap"]
-DUP = {"set": False, "mset": True, "map": False, "mmap": True}
-ISMAP = {"set": False, "mset": False, "map": True, "mmap": True}
+DUP = {"set": False, "mset": True, "map": False, "mmap": True, "dms": True}
+ISMAP = {"set": False, "mset": False, "map": True, "mmap": True, "dms": False}
+# "dms" = btree_multiset<int> with the DEFAULT comparator and DEFAULT traits (64 leaf / 21 inner slots for int on
+# LP64, binary search by the 256-byte threshold); the harness checks these numbers against the real type
+DEFAULT_TRAITS_CFG = ("dms", 0, 64, 21, 1)
 
 
 # ------------------------------------------------------------------------------------------ configurations
 def choose_configs(ck):
     """(kind, gt, leaf, inner, bin) tuples compiled into the harness for this run.
     quick: a fixed core (smallest capacities, asymmetric, the two large pairs) plus a seed-dependent rotation
-    through {4..9}^2; thorough: every pair of {4..9}^2 + (16,8),(8,32), kinds/search/order rotating so that
+    through {4..9}^2 (4 per run) and the all-defaults multiset; thorough: every pair of {4..9}^2 + (16,8),(8,32), kinds/search/order rotating so that
     every pair is seen with both searches and both orders."""
     rng = verif.SplitMix64(ck.seed * 7919 + 17)
     cfgs = []
@@ -49,9 +52,10 @@ def choose_configs(ck):
                 ("mmap", 1, 4, 4, 1), ("mset", 0, 16, 8, 1), ("map", 0, 8, 32, 0), ("set", 1, 5, 5, 0)]
         cfgs.extend(core)
         rest = [p for p in pairs if p not in ((4, 4), (4, 5), (5, 4), (5, 5), (16, 8), (8, 32))]
-        for n in range(8):
+        for n in range(4):
             l, i = rest[rng.below(len(rest))]
             cfgs.append((KINDS[(n + rng.below(4)) % 4], rng.below(2), l, i, rng.below(2)))
+    cfgs.append(DEFAULT_TRAITS_CFG)
     out = []
     for c in cfgs:
         if c not in out:
@@ -180,7 +184,7 @@ def gen_case(rng, cfg, nops):
 
     def recreate(i):
         # destroy variable i, re-create it empty with a comparator state (run-time direction) and an arena
-        d = rng.below(2)
+        d = rng.below(2) if kind != "dms" else 0      # std::less has no state
         ops.append("NC,%d,%d,%d" % (i, d, rng.below(3))); sh[i].l = []; sh[i].gt = d
 
     def bulk(i, n=None):
@@ -196,15 +200,28 @@ def gen_case(rng, cfg, nops):
             else:
                 n = rng.below(cap + 1)
         n = max(0, min(n, cap))
-        if dup:
+        # sorted ranges WITH equal-key runs for all four containers (the unique ones keep the first entry of a
+        # run): few-keys ranges, distinct keys with injected runs (up to leaf + 1 long, so that a run crosses a
+        # leaf boundary), and a run at the very end of the range
+        if dup or rng.chance(1, 3):
             ks = sorted(rng.below(max(1, n // rng.choice([1, 2, leaf, 3 * leaf]) + 1)) for _ in range(n))
         else:
-            ks = sorted(set(rng.below(3 * n + 3) for _ in range(n)))
+            ks = []
+            for k in sorted(set(rng.below(3 * n + 3) for _ in range(n))):
+                ks.extend([k] * (1 + (rng.range(1, leaf + 1) if rng.chance(1, 5) else 0)))
+            ks = ks[:cap]
+        if len(ks) >= 2 and rng.chance(1, 3):
+            for t in range(rng.range(2, min(len(ks), leaf + 2))):
+                ks[len(ks) - 1 - t] = ks[-1]
+            ks.sort()
         if sh[i].gt:
             ks.reverse()
         items = [(k, newd()) for k in ks]
         ops.append("B,%d,%d" % (i, len(items)) + "".join(",%d,%d" % x for x in items))
-        sh[i].l = list(items)
+        if dup:
+            sh[i].l = list(items)
+        else:
+            sh[i].l = [x for t, x in enumerate(items) if t == 0 or items[t - 1][0] != x[0]]
 
     def whole(i):
         j = rng.below(3)
